@@ -94,7 +94,10 @@ def gen_circuit(rng: random.Random, n: int, depth: int,
             'g': 'block', 'q': q,
             'ops': [{'g': 'h', 'q': [0]}, {'g': 'cx', 'q': [0, 1]},
                     {'g': 'rz', 'q': [1], 'p': [0.37]}]})
-    return {'kind': 'circuit', 'n': n, 'gates': gates}
+    spec = {'kind': 'circuit', 'n': n, 'gates': gates}
+    if rng.random() < 0.3:
+        spec['measure'] = sorted(rng.sample(range(n), rng.randint(1, n)))
+    return spec
 
 
 def build_circuit(spec: dict):
@@ -133,6 +136,12 @@ def build_circuit(spec: dict):
     c = Circuit(spec['n'])
     for g in spec['gates']:
         add(c, g)
+    if spec.get('measure'):
+        from bqskit.ir.gates import MeasurementPlaceholder
+        qs = list(spec['measure'])
+        mph = MeasurementPlaceholder([('c', spec['n'])],
+                                     {q: ('c', q) for q in qs})
+        c.append_gate(mph, qs)
     return c
 
 
@@ -168,9 +177,10 @@ def build_target(spec: dict):
             w, v = np.linalg.eigh(h)
             return (v * np.exp(1j * w)) @ v.conj().T
         if gen == 'circ':
-            c = build_circuit(gen_circuit(random.Random(spec.get('seed', 0)),
-                                          n, 6, barriers=False,
-                                          blocks=False))
+            cs = gen_circuit(random.Random(spec.get('seed', 0)), n, 6,
+                             barriers=False, blocks=False)
+            cs.pop('measure', None)
+            c = build_circuit(cs)
             return np.array(c.get_unitary().numpy)
         raise AssertionError(gen)
 
